@@ -224,7 +224,22 @@ def attempt_run(name, defs, tier, seed, cfgs, tlc_workers=8):
     for (line, info) in requests[:: max(1, len(requests) // 6)][:6]:
         m = meta_by_idx[info["d"]]
         samples.append({"def": m["id"], "input_hex": hexs(info["data"]), "mode": info["what"], "expected": info["exp"]})
+    # structural coverage: which kinds of graph states the explored definitions contain
+    kinds = {}
+    for line in open(defs_path):
+        td = json.loads(line)
+        if not (td["accepted"] and td["hasGraph"]):
+            continue
+        g = td["g"]
+        for s_ in range(g["n"]):
+            targets = {t for t in g["edge"][s_] if t}
+            k = "%s%s/%s/%d-edges%s%s" % ("early" if g["early"][s_] else "late" if g["accept"][s_] else "plain",
+                                          "+late" if g["early"][s_] and g["accept"][s_] else "",
+                                          "loop" if (s_ + 1) in targets else "noloop", min(3, len(targets - {s_ + 1})),
+                                          "/eoi" if g["eoi"][s_] else "", "/root" if g["root"] == s_ + 1 else "")
+            kinds[k] = kinds.get(k, 0) + 1
     out = {
+        "state_kinds": kinds,
         "name": name, "tier": tier, "seed": seed, "cfgs": cfgs,
         "tlc": {k: res[k] for k in ("states", "distinct", "depth", "wall")},
         "defs": len(metas), "accepted": sum(1 for m in metas if m["accepted"]),
